@@ -398,6 +398,17 @@ func (fa *Facts) At(in ssa.Instruction) DNF {
 	return fa.States(in.Parent())[in.Block()]
 }
 
+// OnEdge returns the facts that hold when control moves from pred to succ (succ's phi facts included).
+func (fa *Facts) OnEdge(pred, succ *ssa.BasicBlock) DNF {
+	st := fa.States(pred.Parent())
+	for i, p := range succ.Preds {
+		if p == pred {
+			return fa.transfer(st[pred], pred, succ, i)
+		}
+	}
+	return nil
+}
+
 func (fa *Facts) edgeFacts(pred, succ *ssa.BasicBlock) []Fact {
 	if len(pred.Instrs) == 0 {
 		return nil
